@@ -469,7 +469,22 @@ func (c *ctx) perturb() (string, string) {
 			}
 		case "IAT":
 			x := e.iat
-			switch r.Intn(5) {
+			switch r.Intn(6) {
+			case 5:
+				// a return addenda on an IAT entry; the category may lag behind (in-memory change, JSON without category)
+				if x.Addenda99 != nil {
+					return "", ""
+				}
+				a := ach.NewAddenda99()
+				a.ReturnCode = "R01"
+				a.OriginalTrace = padLeft(x.TraceNumber, 15)
+				a.OriginalDFI = padLeft(*v.hODFI, 8)
+				a.TraceNumber = padLeft(x.TraceNumber, 15)
+				x.Addenda99 = a
+				if r.Bool() {
+					x.Category = ach.CategoryReturn
+				}
+				name = "add-99"
 			case 0:
 				a := ach.NewAddenda17()
 				a.PaymentRelatedInformation = "added by the oracle"
